@@ -211,6 +211,8 @@ func VerifC12Step() {
 // VerifC12Blocking: Lock/RLock with a context, while another owner may release
 // between polls.
 func VerifC12Blocking() {
+	rt.SelectNondet(true) // the poll tick and the context's end may both be ready: either may be taken
+	rt.SelectNondetBudget(6)
 	rw := &RWMutex{}
 	g0, g1, g2 := rw.Guard(), rw.Guard(), rw.Guard()
 	excl := rt.Choose("blocking.excl", 2) == 0 // which variant the actor calls
